@@ -1,2 +1,3 @@
 import SoyVerif.Base.Bytes
 import SoyVerif.Props.C15
+import SoyVerif.Props.C05
